@@ -21,7 +21,7 @@ WRAPS = ['pthread_mutex_lock', 'pthread_mutex_trylock', 'pthread_mutex_unlock', 
          'pthread_create', 'pthread_join', 'usleep', 'time', 'syslog', 'openlog', 'closelog',
          'g_queue_push_tail', 'g_queue_pop_head', 'g_queue_peek_head', 'g_queue_is_empty', 'g_queue_get_length', 'g_queue_find_custom',
          'g_hash_table_lookup', 'g_hash_table_insert', 'g_array_append_vals', 'g_array_remove_range', 'g_queue_free', 'g_hash_table_destroy',
-         'g_array_free', 'g_queue_new', 'open', 'read', 'write', 'close']
+         'g_array_free', 'g_queue_new', 'open', 'read', 'write', 'close', 'clock_gettime']
 
 FLAVOURS = {
     'asan': {'cc': 'gcc', 'lib': ['-O1', '-g', '-fno-omit-frame-pointer', '-fsanitize=address,undefined',
